@@ -68,6 +68,21 @@ func (vfs *MemFS) searchNode(path string, slMode slMode) (
 	for pi.Next() {
 		name := pi.Part()
 
+		if parent == volNode {
+			// looking a name up in the root directory requires
+			// the search permission as in any other directory of the path.
+			parent.mu.RLock()
+			ok := parent.checkPermission(avfs.OpenLookup, vfs.User())
+			parent.mu.RUnlock()
+
+			if !ok {
+				child = nil
+				err = vfs.err.PermDenied
+
+				return
+			}
+		}
+
 		parent.mu.RLock()
 		child = parent.children[name]
 		parent.mu.RUnlock()
